@@ -43,6 +43,9 @@ type Atom struct {
 }
 
 func (a Atom) Sig() string {
+	if strings.HasPrefix(a.Pos, "cross-") {
+		return "naming-cross:" + a.Pos + ":" + strings.Join(a.Names, ",")
+	}
 	if len(a.Names) == 1 {
 		return "naming:" + a.Pos + ":" + a.Names[0]
 	}
@@ -150,7 +153,33 @@ func namingSchemaSlots(atoms []Atom) (string, []Slot) {
 	}
 	byPos := map[string][]Atom{}
 	for _, a := range atoms {
-		byPos[a.Pos] = append(byPos[a.Pos], a)
+		// cross-kind collision atoms are spelled out as ordinary declarations:
+		//   cross-const-<kind> [enum, value, type]: an enum whose constant <Enum><Value> normalises
+		//     to the name of a type of that kind;
+		//   cross-consts [enum1, value1, enum2, value2]: constants of two enums that coincide;
+		//   cross-type-<kind1>-<kind2> [name1, name2]: type names of two different kinds that
+		//     normalise to one Go identifier.
+		switch {
+		case strings.HasPrefix(a.Pos, "cross-const-"):
+			k := next()
+			fmt.Fprintf(&b, "enum %s { %s OTHER }\n", a.Names[0], a.Names[1])
+			q = append(q, fmt.Sprintf("qx%d(a: %s): %s", k, a.Names[0], a.Names[0]))
+			pos := "type-" + strings.TrimPrefix(a.Pos, "cross-const-")
+			byPos[pos] = append(byPos[pos], Atom{pos, []string{a.Names[2]}})
+		case a.Pos == "cross-consts":
+			for i := 0; i < 4; i += 2 {
+				k := next()
+				fmt.Fprintf(&b, "enum %s { %s OTHER }\n", a.Names[i], a.Names[i+1])
+				q = append(q, fmt.Sprintf("qx%d(a: %s): %s", k, a.Names[i], a.Names[i]))
+			}
+		case strings.HasPrefix(a.Pos, "cross-type-"):
+			ks := strings.SplitN(strings.TrimPrefix(a.Pos, "cross-type-"), "-", 2)
+			for i, kind := range ks {
+				byPos["type-"+kind] = append(byPos["type-"+kind], Atom{"type-" + kind, []string{a.Names[i]}})
+			}
+		default:
+			byPos[a.Pos] = append(byPos[a.Pos], a)
+		}
 	}
 	names := func(as []Atom) []string {
 		var out []string
@@ -295,7 +324,7 @@ var knownAtomPrefixes = func() map[string]bool {
 		return out
 	}
 	for _, f := range fs {
-		if f.Status == "known" && (strings.HasPrefix(f.Signature, "naming:") || strings.HasPrefix(f.Signature, "naming-pair:")) {
+		if f.Status == "known" && (strings.HasPrefix(f.Signature, "naming:") || strings.HasPrefix(f.Signature, "naming-pair:") || strings.HasPrefix(f.Signature, "naming-cross:")) {
 			if i := strings.LastIndex(f.Signature, ":"); i > 0 {
 				out[f.Signature[:i]] = true
 			}
@@ -350,6 +379,29 @@ func packedNamingProjects(full bool) []NamingProject {
 		ev = append(ev, Atom{"enumvalue", []string{p[0], p[1]}}, Atom{"enumvalue", []string{p[1], p[0]}})
 	}
 	out = append(out, NamingProject{"naming-pairs-enumvalue", ev})
+	// cross-kind collisions: an enum constant against a type name of every kind, the constants of
+	// two different enums, and (thorough) type names of two different kinds
+	var cross []Atom
+	for i, kind := range []string{"object", "input", "enum", "interface", "union"} {
+		cross = append(cross, Atom{"cross-const-" + kind, []string{fmt.Sprintf("Role%d", i), "ADMIN", fmt.Sprintf("Role%dAdmin", i)}})
+		cross = append(cross, Atom{"cross-const-" + kind, []string{fmt.Sprintf("Err%d", i), "NOT_FOUND", fmt.Sprintf("Err%dNotFound", i)}})
+	}
+	cross = append(cross, Atom{"cross-consts", []string{"Foo", "BAR_BAZ", "FooBar", "BAZ"}}, Atom{"cross-consts", []string{"Wx_y", "Z", "Wx", "y_z"}})
+	out = append(out, NamingProject{"naming-cross-constants", cross})
+	if full {
+		tk := []string{"object", "input", "enum", "interface", "union"}
+		var ct []Atom
+		n := 0
+		for i := range tk {
+			for j := range tk {
+				if i != j {
+					n++
+					ct = append(ct, Atom{"cross-type-" + tk[i] + "-" + tk[j], []string{fmt.Sprintf("t%d__y", n), fmt.Sprintf("T%d_y", n)}})
+				}
+			}
+		}
+		out = append(out, NamingProject{"naming-cross-types", ct})
+	}
 	kinds := []string{"type-object"}
 	if full {
 		kinds = []string{"type-object", "type-input", "type-enum", "type-interface", "type-union"}
